@@ -18,9 +18,10 @@ func init() { registry = append(registry, factsC03) }
 //	def uncondGen (a s i : Nat) : Option Nat  -- the number of flows marked unconditional, when a flowAction is sent
 //
 // Supported Go (anything else makes the translation `none` and the Lean obligation `Props/C03Current.reply_is_source` fail):
-// `x := e`, `x = e` inside `if c { … }` without else (a conditional re-assignment), `if c { … } else { … }` whose branches
+// `x := e`, `x = e` inside `if c { … }` without else (a conditional re-assignment), `if c { …; continue }` followed by the
+// rest, `if c { … } else { … }` whose branches
 // end in one send `action <- completeAction{}` / `action <- flowAction{…}`; expressions over `i`, local variables, integer
-// literals, `len(awaitingActions)`, `len(sequenceFlows)` with + - and the comparisons == != < <= > >=; slices `x[lo:hi]`.
+// literals, `len(awaitingActions)`, `len(sequenceFlows)` with + - , the comparisons == != < <= > >= and ! && ||; slices `x[lo:hi]`.
 func factsC03() {
 	f := load("gateway.go")
 	fd := funcDecl(f, "", "distributeFlows")
@@ -79,9 +80,17 @@ func (t *c03tr) expr(e ast.Expr) string {
 				}
 			}
 		}
+	case *ast.UnaryExpr:
+		if x.Op == token.NOT {
+			return "(!" + t.expr(x.X) + ")"
+		}
 	case *ast.BinaryExpr:
 		l, r := t.expr(x.X), t.expr(x.Y)
 		switch x.Op {
+		case token.LOR:
+			return "(" + l + " || " + r + ")"
+		case token.LAND:
+			return "(" + l + " && " + r + ")"
 		case token.ADD:
 			return "(" + l + " + " + r + ")"
 		case token.SUB:
@@ -120,7 +129,14 @@ func (t *c03tr) stmts(ss []ast.Stmt, ind string) (string, string) {
 			}
 		}
 	case *ast.SendStmt:
-		if ch, ok := s.Chan.(*ast.Ident); ok && ch.Name == t.actVar && len(ss) == 1 {
+		// a send ends the iteration: it is the last statement, or it is followed by `continue` alone
+		last := len(ss) == 1
+		if len(ss) == 2 {
+			if br, ok := ss[1].(*ast.BranchStmt); ok && br.Tok == token.CONTINUE && br.Label == nil {
+				last = true
+			}
+		}
+		if ch, ok := s.Chan.(*ast.Ident); ok && ch.Name == t.actVar && last {
 			if cl, ok := s.Value.(*ast.CompositeLit); ok {
 				if id, ok := cl.Type.(*ast.Ident); ok {
 					if id.Name == "completeAction" && len(cl.Elts) == 0 {
@@ -170,6 +186,15 @@ func (t *c03tr) stmts(ss []ast.Stmt, ind string) (string, string) {
 	case *ast.IfStmt:
 		if s.Init == nil {
 			c := t.expr(s.Cond)
+			if s.Else == nil && len(s.Body.List) >= 2 {
+				// `if c { …; send; continue }` followed by the rest of the iteration = if c { … send } else { rest }
+				if br, ok := s.Body.List[len(s.Body.List)-1].(*ast.BranchStmt); ok && br.Tok == token.CONTINUE && br.Label == nil {
+					a1, a2 := t.stmts(s.Body.List, ind+"  ")
+					b1, b2 := t.stmts(ss[1:], ind+"  ")
+					return ind + "if " + c + " then\n" + a1 + "\n" + ind + "else\n" + b1,
+						ind + "if " + c + " then\n" + a2 + "\n" + ind + "else\n" + b2
+				}
+			}
 			if s.Else == nil {
 				// a conditional re-assignment of one variable, then the rest
 				if len(s.Body.List) == 1 {
